@@ -1,6 +1,7 @@
 package schedmc
 
 import (
+	"strings"
 	"encoding/json"
 	"fmt"
 	"sort"
@@ -61,10 +62,18 @@ func RunFamily(c *core.Ctx, family string, bound, shardsPerProg, maxExecsPerJob 
 	capped := false
 	outcomesPerProg := map[int]map[string]bool{}
 	single := 0
-	done := 0
+	done, watchdog := 0, 0
 	core.RunJobsUntil("sched", params, 20*time.Minute, func(idx int, res json.RawMessage, crash string) {
 		done++
 		jp := params[idx].(jobParams)
+		if strings.HasPrefix(crash, "no result within") {
+			// the exploration of this (program, shard) outlived the per-job watchdog: that is a
+			// limit of coverage, not an observation about olric (an execution that does not end is
+			// caught inside the explorer by the step horizon and reported as such)
+			capped = true
+			watchdog++
+			return
+		}
 		if crash != "" {
 			c.Violate(fmt.Sprintf("%s/%s/worker-crash", c.ID, progs[jp.Prog].Name), "exploration worker failed: "+crash, jp)
 			return
@@ -137,6 +146,9 @@ func RunFamily(c *core.Ctx, family string, bound, shardsPerProg, maxExecsPerJob 
 		c.Cov["capped"] = fmt.Sprintf("per-job execution cap %d hit in at least one job", maxExecsPerJob)
 		if tb, ok := c.Cov["time_budget"]; ok {
 			c.Cov["capped"] = tb
+		}
+		if watchdog > 0 {
+			c.Cov["capped"] = fmt.Sprintf("%v; %d (program, shard) job(s) stopped by the 20-minute per-job watchdog before their exploration was complete", c.Cov["capped"], watchdog)
 		}
 	} else if _, ok := c.Cov["exhaustive"]; !ok {
 		c.Cov["exhaustive"] = true
